@@ -22,8 +22,12 @@ def aircraft_lines(rng, n, lat, lon, spread_km=150):
         # (eight blanks), blanks inside, the characters outside A-Z/0-9, or no identification at all
         cs = ["T%05d" % k, "T%05d" % k, "        ", "X", "AB  CD 1", "12345678", "#A#B#C#D", " LEAD", None][rng.randrange(9)]
         ident = [] if cs is None else [enc.line(enc.long_frame(17, 5, addr, enc.me_ident(rng.randint(1, 4), rng.randrange(8), cs)))]
-        pos = [enc.line(enc.long_frame(17, 5, addr, enc.me_airpos(11, 1000 + 25 * rng.randrange(1500), la, lo, False))),
-               enc.line(enc.long_frame(17, 5, addr, enc.me_airpos(11, 1000 + 25 * rng.randrange(1500), la, lo, True)))]
+        # altitudes incl. the codes that decode to "no altitude" (a position without details) and the extremes
+        alts = [rng.choice([-1000, -1000, -975, 0, 25, 50175]) if rng.random() < 0.25 else 1000 + 25 * rng.randrange(1500) for _ in range(2)]
+        if k % 7 == 3:
+            alts = [-1000, -1000]
+        pos = [enc.line(enc.long_frame(17, 5, addr, enc.me_airpos(11, alts[0], la, lo, False))),
+               enc.line(enc.long_frame(17, 5, addr, enc.me_airpos(11, alts[1], la, lo, True)))]
         out += (ident + pos) if rng.random() < 0.6 else (pos + ident)
         if rng.random() < 0.7:
             out.append(enc.line(enc.long_frame(17, 5, addr, enc.me_velocity(rng.randrange(2), rng.randrange(1, 600), rng.randrange(2), rng.randrange(1, 600), rng.randrange(2), rng.randrange(1, 100)))))
@@ -169,7 +173,9 @@ def run_session(col, binpath, rng, tag, scratch, n_events):
         plan.append(("flood", 150.0))
     plan.append(("sleep", 120))
     events = gen_events(rng, n_events, rows, cols)
-    quit_how = rng.choice(["q", "CtrlC"])
+    # the quit request alone, or with further input right behind it in the same write (a key, Enter,
+    # a mouse report): requested is requested
+    quit_how = rng.choice(["q", "CtrlC", "q", "CtrlC", "q+Enter", "CtrlC+x", "q+F3", "q+mouse", "CtrlC+q"])
     cls = f"air={'0' if n_air == 0 else 'some'}|ft={ft}"
     inp = {"options": opts, "size": [rows, cols], "aircraft": n_air, "traffic": traffic, "events": [describe(e) for e in events], "quit": quit_how, "tag": tag}
     sess = session.RadarSession(binpath, plan, lat=rx_lat, lon=rx_lon, opts=opts, rows=rows, cols=cols, scratch=scratch)
@@ -233,7 +239,12 @@ def run_session(col, binpath, rng, tag, scratch, n_events):
         # terminal library keeps collecting until it sees 'c' or 'u'
         sess.p.write(b"c")
         sess.p.pump(0.15)
-        sess.key(quit_how)
+        if "+" in quit_how:
+            first, then = quit_how.split("+")
+            tail = {"Enter": procs.KEYS["Enter"], "x": b"x", "F3": procs.KEYS["F3"], "mouse": procs.mouse("down", 5, 5) + procs.mouse("up", 5, 5), "q": b"q"}[then]
+            sess.send_raw(procs.KEYS[first] + tail, f"quit:{quit_how}")
+        else:
+            sess.key(quit_how)
         check_exit(col, sess, f"'{quit_how}'", cls, inp)
         col.count("quits_checked")
     finally:
